@@ -94,6 +94,8 @@ class C07(FCheck):
         case = {"setup": ops, "steps": [{"inv": inv}], "max_events": 200_000, "timeout_s": 30}
         if kern_extra:
             case["kernel"] = dict(kern_extra)
+        if r.random() < 0.3:
+            case.setdefault("kernel", {})["time_jump_p"] = r.choice([0.02, 0.1, 0.5])
         if shape == "past-eof":
             case["kernel"] = {"fiemap": "emulate", "fiemap_round_eof": r.random() < 0.7, "fiemap_past_eof": r.choice([0, 4096, 65536])}
             if not case["kernel"]["fiemap_round_eof"] and not case["kernel"]["fiemap_past_eof"]:
